@@ -149,12 +149,13 @@ def add_query_argument(url, name, value=None, quote=True):
     query = None
     fragment = None
 
-    s = url.rsplit("#", 1)
+    # NOTE: the fragment starts at the first "#" and the query at the first "?"
+    s = url.split("#", 1)
 
     if len(s) > 1:
         url, fragment = s
 
-    s = url.rsplit("?", 1)
+    s = url.split("?", 1)
 
     if len(s) > 1:
         url, query = s
